@@ -226,22 +226,31 @@ impl<'a> ExecutionEngine<'a> {
 
             if let Some(joined_table_data) = self.joined_table_data.as_ref() {
                 let aggregate_execution_engine = &mut self.aggregate_execution_engine;
-                Ok(
-                    execute_join(
-                        table_definition,
-                        &row,
-                        &line_value,
-                        aggregate_statement.join.as_ref().unwrap(),
-                        joined_table_data,
-                        false,
-                        |column_provider| {
-                            aggregate_execution_engine.execute(
-                                aggregate_statement,
-                                column_provider
-                            )
-                        }
-                    )?
-                )
+
+                // All partners of the line update the aggregates, then the line yields one table
+                let mut updated = false;
+                let output = execute_join(
+                    table_definition,
+                    &row,
+                    &line_value,
+                    aggregate_statement.join.as_ref().unwrap(),
+                    joined_table_data,
+                    false,
+                    |column_provider| {
+                        updated |= aggregate_execution_engine.execute_update(
+                            aggregate_statement,
+                            column_provider
+                        )?;
+
+                        Ok(None)
+                    }
+                )?;
+
+                if updated {
+                    Ok(ExecutionOutput::joined(Some(aggregate_execution_engine.execute_result(aggregate_statement)?)))
+                } else {
+                    Ok(output)
+                }
             } else {
                 let aggregate_execution_engine = &mut self.aggregate_execution_engine;
                 Ok(
